@@ -308,7 +308,7 @@ func zzC09Recover(err *error) {
 // update is drawn from the module's own seeded stream.
 func (y *zzC09Sys) do(act string, x int) (err error) {
 	var p int64
-	if act == "update" {
+	if act == "update" || act == "flushfail" {
 		p = y.nextP()
 	}
 
@@ -326,6 +326,29 @@ func (y *zzC09Sys) doP(act string, x int, p int64) (err error) {
 		y.hour.Add(uint32(x))
 	case "flush":
 		y.s.flush()
+	case "flushfail":
+		// An I/O fault at the periodic step, injected with the package's own
+		// means: either the bbolt database is closed underneath, so that
+		// opening the write transaction fails, or the handle is momentarily
+		// gone (as inside clear()).  The step runs, then the database is usable
+		// again.  Which of the two is part of the recorded payload seed.
+		db := y.s.db.Load()
+		if db == nil {
+			return fmt.Errorf("flushfail: no database")
+		}
+
+		if (p>>3)&1 == 0 {
+			if err = db.Close(); err != nil {
+				return fmt.Errorf("flushfail: closing: %w", err)
+			}
+
+			y.s.flush()
+			err = y.s.openDB()
+		} else {
+			y.s.db.Store(nil)
+			y.s.flush()
+			y.s.db.Store(db)
+		}
 	case "close":
 		// What home does on shutdown: the configuration goes to the file, the
 		// module is closed.
@@ -738,7 +761,7 @@ func zzC09RunPath(dir string, p *zzC09Path) (bad int, msgs []string, got *zzC09G
 	for i := range p.Steps {
 		st := &p.Steps[i]
 		pay := st.P
-		if st.A == "update" && pay == 0 {
+		if (st.A == "update" || st.A == "flushfail") && pay == 0 {
 			pay = y.nextP()
 		}
 
@@ -917,7 +940,7 @@ func zzC09Walk(t *testing.T, g *zzC09Graph, w, nw int, frac int, seed int64, dea
 		e := &g.edges[ei]
 		d := &g.states[e.D]
 		var pay int64
-		if e.A == "update" {
+		if e.A == "update" || e.A == "flushfail" {
 			pay = y.nextP()
 		}
 
@@ -968,7 +991,7 @@ func zzC09Walk(t *testing.T, g *zzC09Graph, w, nw int, frac int, seed int64, dea
 
 		shortP := make([]int64, len(sp))
 		for i, sei := range sp {
-			if g.edges[sei].A == "update" {
+			if a := g.edges[sei].A; a == "update" || a == "flushfail" {
 				shortP[i] = lastP
 			}
 		}
@@ -1264,8 +1287,10 @@ func TestZZVerifC09Trace(t *testing.T) {
 				ev, k = "update", 1+rng.Intn(5)
 			case r < 68:
 				ev, k = "tick", zzC09Gap(rng, lim)
-			case r < 82:
+			case r < 78:
 				ev = "flush"
+			case r < 82:
+				ev = "flushfail"
 			case r < 88:
 				ev = "close"
 			case r < 93:
